@@ -3,6 +3,25 @@
 
 package utils
 
+import (
+	"bufio"
+	"io"
+)
+
+// MaxLineLength is the maximum length of a line that the line scanners accept.
+// The default of bufio.Scanner (64 KiB) is too small: longer lines make the scanner
+// stop silently, dropping the rest of the input.
+const MaxLineLength = 1 << 30
+
+// NewLineScanner returns a scanner that splits the input into lines of up to
+// MaxLineLength bytes.
+func NewLineScanner(reader io.Reader) *bufio.Scanner {
+	scanner := bufio.NewScanner(reader)
+	scanner.Buffer(nil, MaxLineLength)
+	scanner.Split(bufio.ScanLines)
+	return scanner
+}
+
 func IsEscaped(input string, position int) bool {
 	escapeCounter := 0
 	for backtrackIndex := position - 1; backtrackIndex >= 0; backtrackIndex-- {
